@@ -304,6 +304,46 @@ class CallMixin:
         u.args = args
         return u
 
+    def bi_ast_iter_child_nodes(self, args, kwargs, node, fr):
+        return StrOp("children", [args[0]])
+
+    def bi_ast_iter_fields(self, args, kwargs, node, fr):
+        raise AnalysisError("ast.iter_fields on a user node is outside the modelled subset")
+
+    def has_children(self, v):
+        """Does a node have at least one child AST node (ast.iter_child_nodes non-empty)?"""
+        import ast as _ast
+
+        from .reference import asdl as _asdl
+
+        if isinstance(v, TNode):
+            return any(isinstance(x, (TNode, UNode)) or (isinstance(x, PList) and x.items) for x in v.fields.values())
+        if not isinstance(v, UNode):
+            return self.decide(f"haschildren:{self.describe(v)}")
+        always, never = True, True
+        for k in v.kinds:
+            req = False
+            opt = False
+            for f, (t, q) in _asdl.FIELDS.get(k, {}).items():
+                if t in _asdl.PRIMITIVE:
+                    continue
+                if q == "":
+                    req = True
+                else:
+                    opt = True
+            if req:
+                never = False
+            elif opt:
+                always = False
+                never = False
+            else:
+                always = False
+        if always and not never:
+            return True
+        if never and not always:
+            return False
+        return self.decide(f"haschildren:{v.path()}")
+
     def bi_isinstance(self, args, kwargs, node, fr):
         return Cst(self.isinstance_test(args[0], args[1]))
 
@@ -463,6 +503,9 @@ class CallMixin:
         return Cst(self._anyall(args[0], False))
 
     def _anyall(self, v, is_any):
+        if isinstance(v, StrOp) and v.op == "children":
+            h = self.has_children(v.args[0])
+            return h if is_any else True
         items = v.items if isinstance(v, (PList, PTuple, PSet)) else None
         if items is None:
             return self.decide(f"{'any' if is_any else 'all'}:{self.describe(v)}")
